@@ -586,7 +586,10 @@ def apply_type_block(blk):
         if st.startswith('#['):
             rules.append({'rule': 'R11-attr-dropped', 'text': st[:120]})
             continue
-        out.append(Line(t, (relfile, item['line'] + i), 'code'))
+        # R11: visibility qualifiers are dropped (single-module unit; no semantic content)
+        t2 = re.sub(r'\bpub(\([^)]*\))?\s+', '', t)
+        out.append(Line(t2, (relfile, item['line'] + i), 'code'))
+    rules.append({'rule': 'R11-visibility-dropped'})
     for sname, sarg, slines in blk.sections:
         if sname in ('rewrite', 'rewrite-re'):
             for (ln, no) in slines:
